@@ -385,3 +385,59 @@ func (n *Net) SignerOf(h *block.Header) int {
 
 // Key returns the private key of dev account i.
 func (n *Net) Key(i int) *ecdsa.PrivateKey { return n.Devs[i].PrivateKey }
+
+// OpenStack builds a full stack over an existing store and log db, following the start-up order of cmd/thor/main.go:
+// genesis build, repository, genesis logs, log-db resynchronisation (thor's own syncLogDB), bft engine, node.
+// Logs are enabled for this node regardless of Options.SkipLogs.
+func (n *Net) OpenStack(idx int, e *kvrec.Engine, ldb *logdb.LogDB, syncLogs func(*chain.Repository, *logdb.LogDB) error) (nd *Node, err error) {
+	defer func() {
+		if r := recover(); r != nil {
+			if _, ok := r.(kvrec.CrashSentinel); ok {
+				panic(r)
+			}
+			err = fmt.Errorf("panic while opening the stack: %v", r)
+		}
+	}()
+	acc := n.Devs[0]
+	if idx >= 0 {
+		acc = n.Devs[idx]
+	}
+	db := muxdb.NewWithEngine(e, muxdb.VerifOptions{})
+	stater := state.NewStater(db)
+	e.SetNote("genesis")
+	b0, gEvents, gTransfers, err := n.Gen.Build(stater)
+	if err != nil {
+		return nil, err
+	}
+	repo, err := chain.NewRepository(db, b0)
+	if err != nil {
+		return nil, fmt.Errorf("open repository: %w", err)
+	}
+	w := ldb.NewWriter()
+	if err := w.Write(b0, tx.Receipts{{Outputs: []*tx.Output{{Events: gEvents, Transfers: gTransfers}}}}); err != nil {
+		return nil, err
+	}
+	if err := w.Commit(); err != nil {
+		return nil, err
+	}
+	if syncLogs != nil {
+		if err := syncLogs(repo, ldb); err != nil {
+			return nil, fmt.Errorf("sync log db: %w", err)
+		}
+	}
+	eng, err := bft.NewEngine(repo, db, n.FC, acc.Address)
+	if err != nil {
+		return nil, fmt.Errorf("open bft engine: %w", err)
+	}
+	cons := consensus.New(repo, stater, n.FC)
+	pk := packer.New(repo, stater, acc.Address, &acc.Address, n.FC, 0)
+	cm := &Comm{synced: make(chan struct{})}
+	pool := &Pool{}
+	nn := node.New(&node.Master{PrivateKey: acc.PrivateKey, Beneficiary: &acc.Address}, repo, eng, stater, ldb, pool,
+		n.tmp, cm, n.FC, node.Options{SkipLogs: false}, cons, pk)
+	if err := nn.VerifInit(); err != nil {
+		return nil, err
+	}
+	return &Node{Net: n, Idx: idx, Acc: acc, KV: e, DB: db, Repo: repo, Stater: stater, LogDB: ldb, BFT: eng, Cons: cons,
+		Packer: pk, Node: nn, Comm: cm, Pool: pool}, nil
+}
